@@ -78,8 +78,18 @@ ConRefTypes ==
      RefSz("B0", Sz(0, 6, FALSE)), RefSz("K0", Sz(2, 2, FALSE)), RefSz("O0", SzRef(1, 10, "", "max")),
      RefConX("A0", 6, 7), RefSz("O0", Sz(2, 3, TRUE)), RefSz("K0", Sz(1, 2, TRUE)), RefSz("S0", Sz(1, 2, TRUE)) >>
 
+\* the same referenced type used under the same component name (and as list element) with and without a range of
+\* its own: the constraint of one use must not reach the other uses
+PlainRef(name) == [k |-> "REF", tags |-> <<>>, name |-> name]
+ConSharedRef ==
+  TSeq("SEQ", <<Mand("p", TSeq("SEQ", <<Mand("v", RefCon("A0", 0, 10))>>, FALSE, <<>>)),
+                Mand("q", TSeq("SEQ", <<Mand("v", PlainRef("A0"))>>, FALSE, <<>>)),
+                Mand("r", TSeq("SEQ", <<Mand("v", RefCon("A0", 30, 40))>>, FALSE, <<>>)),
+                Mand("l", TOf("SEQOF", RefCon("A0", 1, 5), NoSz)),
+                Mand("m", TOf("SEQOF", PlainRef("A0"), NoSz))>>, FALSE, <<>>)
+
 ConPrimTypes ==
-  IntTypes \o ConIntExtra \o SelectSeq(BitsTypes \o OctsTypes \o StrTypes, SmallBounds) \o ConSizeExtra \o ConRefTypes
+  <<ConSharedRef>> \o IntTypes \o ConIntExtra \o SelectSeq(BitsTypes \o OctsTypes \o StrTypes, SmallBounds) \o ConSizeExtra \o ConRefTypes
   \o <<TBool, EnumTypes[2]>>
 
 \* representatives wrapped at depth >= 1 when ~Rich
@@ -200,7 +210,9 @@ FirstPerKey(xs) ==    \* xs : sequence of records with a string field key
 
 ConEnvFor(td, t) ==
   [tagdef |-> td, extimp |-> FALSE,
-   types |-> IF t.k = "REF" THEN (t.name :> ConNamed[t.name]) ELSE [x \in {} |-> 0]]
+   types |-> IF t.k = "REF" THEN (t.name :> ConNamed[t.name])
+             ELSE IF t = ConSharedRef THEN ("A0" :> ConNamed["A0"])
+             ELSE [x \in {} |-> 0]]
 
 ConInit ==
   /\ gDepth = 0
